@@ -119,6 +119,8 @@ PROPS = {
     },
     "C13": {
         "lean_modules": ["C13"],
+        "pre_cmds": [GOL],
+        "trusted_extra": [GOL_TRUST],
         "rule": "shapes of rank 0-4 with dims 1-4 (quick) / 1-5 (thorough); Shape.S and AP.T calculators vs the executed Slice / T on the same (valid and invalid) arguments; Reshape to every factorisation of the size (and to a wrong size) after slicing, transposing, cloning, materialising; the metadata invariant wf (one stride per axis, size = product of shape, distinct in-window addresses) is evaluated in every dump of every check",
     },
 }
